@@ -4,14 +4,14 @@ manifest always lists exactly the checks the driver knows)."""
 import json, os, subprocess, sys
 sys.path.insert(0, os.path.dirname(os.path.abspath(__file__)))
 from checks_config import CHECKS
-from manifest_texts import TEXTS, NOT_APPLICABLE, HOOK_COMMITS
+from manifest_texts import NOT_APPLICABLE, HOOK_COMMITS
 
 props = [json.loads(l)["id"] for l in open("properties.jsonl")]
 checks = []
 for pid in props:
     if pid not in CHECKS:
         continue
-    t = TEXTS[pid]
+    t = CHECKS[pid]
     checks.append({
         "property_id": pid,
         "quick_cmd": "./check %s --tier quick" % pid,
